@@ -156,6 +156,7 @@ struct Obj {
 
   // Function
   bool is_inline;
+  bool is_inline_only; // every declaration so far is `inline` without `extern`
   Obj *params;
   Node *body;
   Obj *locals;
